@@ -789,9 +789,8 @@ impl Generatable for Statement
 			{
 				let cname = CString::new(&name.name as &str)?;
 				let vartype = value_type.generate(llvm)?;
-				let loc = unsafe {
-					LLVMBuildAlloca(llvm.builder, vartype, cname.as_ptr())
-				};
+				let loc =
+					build_alloca_in_entry_block(vartype, cname.as_ptr(), llvm);
 				llvm.local_variables.insert(name.resolution_id, loc);
 				let value = value.generate(llvm)?;
 				unsafe {
@@ -807,9 +806,8 @@ impl Generatable for Statement
 			{
 				let cname = CString::new(&name.name as &str)?;
 				let vartype = value_type.generate(llvm)?;
-				let loc = unsafe {
-					LLVMBuildAlloca(llvm.builder, vartype, cname.as_ptr())
-				};
+				let loc =
+					build_alloca_in_entry_block(vartype, cname.as_ptr(), llvm);
 				llvm.local_variables.insert(name.resolution_id, loc);
 				Ok(())
 			}
@@ -2099,13 +2097,41 @@ fn generate_autocoerce(
 	}
 }
 
+/// Reserve stack space of a fixed size in the entry block of the current
+/// function, so that a declaration inside a loop does not grow the stack
+/// with every iteration.
+fn build_alloca_in_entry_block(
+	vtype: LLVMTypeRef,
+	name: *const ::libc::c_char,
+	llvm: &mut Generator,
+) -> LLVMValueRef
+{
+	unsafe {
+		let current_block = LLVMGetInsertBlock(llvm.builder);
+		let function = LLVMGetBasicBlockParent(current_block);
+		let entry_block = LLVMGetEntryBasicBlock(function);
+		let first_instruction = LLVMGetFirstInstruction(entry_block);
+		if first_instruction.is_null()
+		{
+			LLVMPositionBuilderAtEnd(llvm.builder, entry_block);
+		}
+		else
+		{
+			LLVMPositionBuilderBefore(llvm.builder, first_instruction);
+		}
+		let alloca = LLVMBuildAlloca(llvm.builder, vtype, name);
+		LLVMPositionBuilderAtEnd(llvm.builder, current_block);
+		alloca
+	}
+}
+
 fn generate_tmp_address(
 	value: LLVMValueRef,
 	vtype: LLVMTypeRef,
 	llvm: &mut Generator,
 ) -> Result<LLVMValueRef, anyhow::Error>
 {
-	let tmp = unsafe { LLVMBuildAlloca(llvm.builder, vtype, cstr!("")) };
+	let tmp = build_alloca_in_entry_block(vtype, cstr!(""), llvm);
 	unsafe {
 		LLVMBuildStore(llvm.builder, value, tmp);
 	}
@@ -2602,10 +2628,14 @@ fn format_d128(
 	let buf_len = llvm.const_usize(41);
 	let intermediate = unsafe {
 		let char_type = LLVMInt8TypeInContext(llvm.context);
-		LLVMBuildArrayAlloca(llvm.builder, char_type, buf_len, cstr!(".buf128"))
+		let buf_type = LLVMArrayType(char_type, 41);
+		let buffer =
+			build_alloca_in_entry_block(buf_type, cstr!(".buf128"), llvm);
+		let pointertype = LLVMPointerType(char_type, 0u32);
+		LLVMBuildPointerCast(llvm.builder, buffer, pointertype, cstr!(""))
 	};
 	let var_num_characters_written_head =
-		unsafe { LLVMBuildAlloca(llvm.builder, i32_type, cstr!(".n")) };
+		build_alloca_in_entry_block(i32_type, cstr!(".n"), llvm);
 
 	let bytes = b"-%llu%n\0\0\0\0\0\0\0\0\0\
 	              -%llu%n%016llu\0\0\
